@@ -138,11 +138,13 @@ type obs struct {
 	prefix         string
 	minLen, maxLen int
 	err            string
+	kind           model.C05Kind
 }
 
 func observe(c *core.Ctx, val cty.Value, kind model.C05Kind) (o obs) {
 	v, _ := val.Unmark()
 	o.v = v
+	o.kind = kind
 	o.known = v.IsKnown()
 	o.lo, o.hi = model.Num{Inf: -1}, model.Num{Inf: 1}
 	o.loInc, o.hiInc = true, true
@@ -197,7 +199,7 @@ func (o obs) String() string {
 	if o.notNull {
 		r.Null = model.TriFalse
 	}
-	return r.String()
+	return r.Show(o.kind)
 }
 
 // admits: does the observed value (by its reported range, or by itself when it
@@ -514,7 +516,7 @@ func runSeq(c *core.Ctx, idx int64, s *seqCase) {
 			rb = apply(b, call)
 		})
 		c.Eval(1)
-		wit := func() string { return fmt.Sprintf("%s   [step %d: %s; model before: %s]", s.desc(), i, call, prevR) }
+		wit := func() string { return fmt.Sprintf("%s   [step %d: %s; model before: %s]", s.desc(), i, call, prevR.Show(kind)) }
 		switch exp {
 		case model.C05MustPanic:
 			if !out.Panicked {
@@ -658,7 +660,7 @@ func checkResult(c *core.Ctx, s *seqCase, st *model.C05State, site string, recv,
 	} else {
 		c.Count("result:unknown")
 		if cl, det := rangeDiff(after, st); cl != "" {
-			c.Violate("Value.Range", "reported range differs from what the stated constraints imply", cl, wit(), fmt.Sprintf("%s; reported %s; constraints imply %s", det, after, st.R))
+			c.Violate("Value.Range", "reported range differs from what the stated constraints imply", cl, wit(), fmt.Sprintf("%s; reported %s; constraints imply %s", det, after, st.R.Show(st.Kind)))
 			return after, true
 		}
 		c.Count("clause:range-exact")
@@ -682,7 +684,7 @@ func checkResult(c *core.Ctx, s *seqCase, st *model.C05State, site string, recv,
 			c.Violate(site, "range widened: a value excluded before is admitted after", kind.String(), pw(), fmt.Sprintf("before %s; after %s", before, after))
 		}
 		if mAdm && !aAdm {
-			c.Violate(site, "a value satisfying every stated constraint is no longer admitted", kind.String(), pw(), fmt.Sprintf("after %s; constraints imply %s", after, st.R))
+			c.Violate(site, "a value satisfying every stated constraint is no longer admitted", kind.String(), pw(), fmt.Sprintf("after %s; constraints imply %s", after, st.R.Show(st.Kind)))
 		}
 		c.Count("clause:no-widening+stays-admitted")
 		var inc, eq cty.Value
@@ -692,9 +694,9 @@ func checkResult(c *core.Ctx, s *seqCase, st *model.C05State, site string, recv,
 			c.Violate("ValueRange.Includes", "panic: "+core.PanicClass(out.PanicMsg), kind.String(), pw(), out.PanicMsg+"\n"+out.Stack)
 		} else if inc.IsKnown() {
 			if inc.False() && mAdm {
-				c.Violate("ValueRange.Includes", "answers False for a value the constraints admit", includesClass(st, p), pw(), fmt.Sprintf("range %s; constraints imply %s", after, st.R))
+				c.Violate("ValueRange.Includes", "answers False for a value the constraints admit", includesClass(st, p), pw(), fmt.Sprintf("range %s; constraints imply %s", after, st.R.Show(st.Kind)))
 			} else if inc.True() && !mAdm {
-				c.Violate("ValueRange.Includes", "answers True for a value the constraints exclude", includesClass(st, p), pw(), fmt.Sprintf("range %s; constraints imply %s", after, st.R))
+				c.Violate("ValueRange.Includes", "answers True for a value the constraints exclude", includesClass(st, p), pw(), fmt.Sprintf("range %s; constraints imply %s", after, st.R.Show(st.Kind)))
 			}
 			if inc.False() {
 				c.Count("includes:False")
@@ -710,9 +712,9 @@ func checkResult(c *core.Ctx, s *seqCase, st *model.C05State, site string, recv,
 			c.CrossNote("C01", "Value.Equals panicked on a refined value: "+core.PanicClass(out.PanicMsg), pw())
 		} else if eq.IsKnown() {
 			if eq.False() && mAdm && !after.known {
-				c.Violate("Value.Equals", "answers False for a value the constraints admit", includesClass(st, p), pw(), fmt.Sprintf("range %s; constraints imply %s", after, st.R))
+				c.Violate("Value.Equals", "answers False for a value the constraints admit", includesClass(st, p), pw(), fmt.Sprintf("range %s; constraints imply %s", after, st.R.Show(st.Kind)))
 			} else if eq.True() && !mAdm {
-				c.Violate("Value.Equals", "answers True for a value the constraints exclude", includesClass(st, p), pw(), fmt.Sprintf("range %s; constraints imply %s", after, st.R))
+				c.Violate("Value.Equals", "answers True for a value the constraints exclude", includesClass(st, p), pw(), fmt.Sprintf("range %s; constraints imply %s", after, st.R.Show(st.Kind)))
 			}
 			c.Count("equals:known-answer")
 		} else {
@@ -720,7 +722,7 @@ func checkResult(c *core.Ctx, s *seqCase, st *model.C05State, site string, recv,
 		}
 	}
 	if c.WantSample() {
-		c.Sample(map[string]any{"case": s.desc(), "model": st.R.String(), "observed": after.String()})
+		c.Sample(map[string]any{"case": s.desc(), "model": st.R.Show(st.Kind), "observed": after.String()})
 	}
 	return after, false
 }
